@@ -47,6 +47,8 @@ def main(argv=None):
             return 1
         print(f"[{prop}/replay] the saved counterexample does not reproduce on the current tree")
         return 0
+    # wall-clock budget per job: a job that cannot finish is reported as inconclusive (exit 2) instead of hanging
+    os.environ.setdefault("VERIF_JOB_BUDGET_S", "900" if args.tier == "quick" else "5400")
     plan = mod.plan(args.tier, seed)
     jobs = plan["jobs"]
     if args.only:
